@@ -140,6 +140,8 @@ class Script(object):
         self.dec = None
         self.enc = None
         self.frames = []                # (state, id, payload, compressed)
+        self.frame_spans = []           # (start, end) offsets in the stream
+        self.consumed = 0
         self.errors = []
         self.cut = None                 # total s2c bytes before EOF
         self.emitted = 0
@@ -184,6 +186,8 @@ class Script(object):
                 return
             body = bytes(self.buf[p:p + n])
             del self.buf[:p + n]
+            self.frame_spans.append((self.consumed, self.consumed + p + n))
+            self.consumed += p + n
             fp = wire.FrameParser(self.c2s_compressed)
             try:
                 pid, payload, comp = fp.decode_body(body)
